@@ -28,6 +28,9 @@ type SysOpts struct {
 	HostBases    []string
 	MetaLimit    int
 	BoltSync     bool // keep fsync on (C15)
+	// Wrap, when set, interposes on the Backend the front end is built on
+	// (schedule gates at backend-call granularity, C07).
+	Wrap func(gofakes3.Backend) gofakes3.Backend `json:"-"`
 }
 
 // System is one backend + front end under test.
@@ -178,6 +181,9 @@ func (s *System) open(fresh bool) error {
 		opts = append(opts, gofakes3.WithMetadataSizeLimit(o.MetaLimit))
 	}
 	opts = append(opts, gofakes3.WithTimeSkewLimit(0))
+	if o.Wrap != nil {
+		s.Backend = o.Wrap(s.Backend)
+	}
 	s.Faker = gofakes3.New(s.Backend, opts...)
 	s.Handler = s.Faker.Server()
 	return nil
